@@ -106,6 +106,8 @@ func GenShapes(shapes []Shape, id, pkgRel string) *Scenario {
 		}
 		if sh.Named {
 			m.Src.Name, m.Dst.Name = "in", "out"
+			// whatever the interface calls its error result, the generated function has `err error`
+			m.ErrName = []string{"", "err", "failure", "e", "_"}[i%5]
 		}
 		for x := 0; x < sh.NExtras; x++ {
 			p := Param{Type: extraTypes[(i+x)%len(extraTypes)]}
